@@ -147,11 +147,19 @@ class Driver:
         f = mod.forward if dir_ == "fwd" else mod.inverse
         out, lad = f(x)
         grad = None
+        pgrad = None
         if bw:
+            for p in mod.parameters():
+                p.grad = None
             loss = (out * self.w1.to(out.dtype)).sum() + (lad * self.w2.to(lad.dtype)).sum()
             loss.backward()
             grad = x.grad
-        return out.detach(), lad.detach(), grad
+            # gradients with respect to the parameters: the cached transform must support the same
+            # back-propagation as the uncached one
+            pgrad = torch.cat([(p.grad if p.grad is not None else torch.zeros_like(p)).reshape(-1) for p in mod.parameters()])
+            for p in mod.parameters():
+                p.grad = None
+        return out.detach(), lad.detach(), grad, pgrad
 
     def project(self):
         m = self.m
@@ -244,10 +252,13 @@ class Driver:
                         diffs.append(float("inf"))
                     else:
                         diffs.append(float((a - b).abs().max() / (1.0 + b.abs().max())))
-                bad = [d for d in diffs if not d <= tol]
+                bad = [d for d in diffs[:3] if not d <= tol]
                 o = "stale" if bad else "fresh"
                 if bad:
-                    fail = {"outcome": "stale", "detail": "max rel diff vs uncached twin %.3g" % max(diffs)}
+                    fail = {"outcome": "stale", "detail": "max rel diff vs uncached twin %.3g" % max(diffs[:3])}
+                elif len(diffs) > 3 and not diffs[3] <= 10 * tol:
+                    o = "param_grad_differs"
+                    fail = {"outcome": o, "detail": "parameter gradients of the cached call differ from the uncached twin's by %.3g (relative)" % diffs[3]}
                 elif bw and cached_mode:
                     self.bw_since_fill = True
             ev["o"] = o
